@@ -37,6 +37,56 @@ pub const ROOT_KQK: &str = "8/8/8/4k3/8/8/8/1Q2K3 w - - 0 1";
 pub const ROOT_KPK: &str = "8/8/8/4k3/8/8/4P3/4K3 w - - 0 1";
 pub const ROOT_KPKP: &str = "8/4p3/8/4k3/8/8/3P4/4K3 w - - 0 1";
 
+/// Root of the `state-change` histories: all four castling rights with empty back ranks, a pawn of either colour
+/// on its home square next to the file of an advanced enemy pawn (a double step creates an en-passant file), and a
+/// knight each for reversible waiting moves.
+pub const ROOT_STATE_CHANGE: &str = "r3k2r/3p4/7n/4P3/3p4/7N/4P3/R3K2R w KQkq - 0 1";
+
+/// History length x kind of state change: after a prefix of k reversible knight moves (every k with k + 2 <= 398)
+/// the mover plays one of the moves that change the per-ply state (a double step that creates an en-passant file,
+/// either castling, a king move, either rook leaving its corner; a quiet pawn step as control) and the opponent
+/// answers (en-passant capture, waiting move - the file lapses -, its own double step, its own castling). The two
+/// states after those moves are visited with the whole history on the game. Whatever the engine does at a particular
+/// length of the state stack or the move record (a buffer boundary, a compaction, a counter width) meets every kind
+/// of state change there.
+pub fn state_change_paths(heavy: bool) -> Space {
+    let cycle = ["h3g5", "h6g4", "g5h3", "g4h6"];
+    let first: [&[&str]; 2] = [&["e2e4", "e1g1", "e1c1", "e1f1", "a1b1", "h1g1", "e2e3"], &["d7d5", "e8g8", "e8c8", "e8f8", "a8b8", "h8g8", "d7d6"]];
+    let reply: [&[&str]; 2] = [&["d4e3", "d7d5", "e8g8", "e8c8"], &["e5d6", "e2e4", "e1g1", "e1c1"]];
+    let root = crate::refchess::parse_fen_strict(ROOT_STATE_CHANGE).expect("root").pos.normalised();
+    let mut paths = vec![];
+    let mut cur = root;
+    let mut prefix: Vec<String> = vec![];
+    for k in 0..=396usize {
+        let side = k % 2; // 0 = white to move
+        for f in first[side] {
+            let Some(m1) = cur.legal().into_iter().find(|m| &m.uci() == f) else { continue };
+            let after = cur.apply(&m1).normalised();
+            // the opponent's waiting move continues its knight's cycle
+            let wait = cycle[(k + 1) % 4];
+            let mut rs: Vec<&str> = vec![wait];
+            if !heavy || k % 8 == 0 || [255usize, 256, 257, 383, 384, 385, 395, 396].contains(&k) {
+                rs.extend(reply[side].iter());
+            } else {
+                rs.push(reply[side][0]);
+            }
+            for r in rs {
+                if after.legal().iter().any(|m| m.uci() == r) {
+                    let mut p = prefix.clone();
+                    p.push(f.to_string());
+                    p.push(r.to_string());
+                    paths.push(p);
+                }
+            }
+        }
+        let w = cycle[k % 4];
+        let m = cur.legal().into_iter().find(|m| m.uci() == w).expect("waiting move legal");
+        cur = cur.apply(&m).normalised();
+        prefix.push(w.to_string());
+    }
+    Space::Paths { name: "state-change x history length".into(), root: ROOT_STATE_CHANGE.into(), paths, visit_last: 2 }
+}
+
 /// The spaces a core property runs over, per tier.
 pub fn core_spaces(tier: &str, seed: i64, heavy: bool) -> Vec<Space> {
     let off = seed.unsigned_abs();
@@ -99,6 +149,7 @@ pub fn core_spaces(tier: &str, seed: i64, heavy: bool) -> Vec<Space> {
         v.push(Space::line("startpos-shuffle", ROOT_START, 398, 1));
         v.push(Space::line("kiwipete-shuffle", ROOT_KIWI, 398, 3));
         v.push(Space::line("rights-any", ROOT_RIGHTS, 398, 4));
+        v.push(state_change_paths(heavy));
     } else {
         v.push(Space::all(Universe::U2));
         v.push(Space::all(Universe::U3));
@@ -144,6 +195,7 @@ pub fn core_spaces(tier: &str, seed: i64, heavy: bool) -> Vec<Space> {
             let (n, r) = match rule % 4 { 0 => ("rights", ROOT_RIGHTS), 1 => ("startpos", ROOT_START), 2 => ("perft5", ROOT_P5), _ => ("kiwipete", ROOT_KIWI) };
             v.push(Space::line(&format!("{}-rule{}", n, rule), r, 398, rule));
         }
+        v.push(state_change_paths(false));
     }
     v
 }
@@ -206,7 +258,12 @@ pub fn c01_visit(ctx: &StateCtx, acc: &mut Acc) {
             _ => {}
         }
     }
-    for (how, mut g) in games(ctx, acc, false) {
+    let mut all = games(ctx, acc, false);
+    if ctx.root.is_some() && !ctx.path.is_empty() {
+        // the route of the `position` command and of self-play: moves played into the record
+        all.extend(games(ctx, acc, true).into_iter().filter(|(how, _)| *how == "reached").map(|(_, g)| ("reached by push_history", g)));
+    }
+    for (how, mut g) in all {
         let r = guarded(|| (move_texts(&mut g, true), move_texts(&mut g, false)));
         let (checked, unchecked) = match r {
             Ok(x) => x,
@@ -311,6 +368,41 @@ pub fn c02_visit(ctx: &StateCtx, acc: &mut Acc) {
             let f: Vec<&str> = fen.split(' ').collect();
             if f.len() < 4 || f[0] != succ.placement_field() || f[1] != (if succ.white { "w" } else { "b" }) || f[2] != succ.rights_field() {
                 vio(acc, ctx, &format!("succ-fen|{}", t), format!("after {} ({} game) fen() = {:?}, model successor {:?}", t, how, fen, succ.fen4(false)));
+            }
+        }
+    }
+    // the same through `push_history` (the route of the `position` command and of self-play): the game reached by
+    // playing the whole path into the record is the model position, and so is every successor played into the record
+    if ctx.root.is_some() && !ctx.path.is_empty() {
+        for (_, g) in games(ctx, acc, true).into_iter().filter(|(how, _)| *how == "reached") {
+            acc.count("states reached by push_history compared with the model");
+            if let Err(e) = core_matches(&g.verif_dump(), ctx.pos) {
+                vio(acc, ctx, "reached-history", format!("the game reached by playing {} plies into the record differs from the model position: {}", ctx.path.len(), e));
+                continue;
+            }
+            for m in &model_legal {
+                let t = m.uci();
+                let mut h = g.clone();
+                let Some(em) = find_move(&mut h, &t) else { continue };
+                let succ = ctx.pos.apply(m);
+                let r = guarded(|| {
+                    h.push_history(em);
+                    (h.verif_dump(), h.fen())
+                });
+                acc.transitions += 1;
+                match r {
+                    Err(p) => vio(acc, ctx, &format!("push-history-panic|{}", t), format!("push_history of {} panicked after {} plies: {}", t, ctx.path.len(), p)),
+                    Ok((d, fen)) => {
+                        if let Err(e) = core_matches(&d, &succ) {
+                            vio(acc, ctx, &format!("succ-history|{}", t), format!("after {} played into the record ({} plies before it): {}", t, ctx.path.len(), e));
+                            continue;
+                        }
+                        let f: Vec<&str> = fen.split(' ').collect();
+                        if f.len() < 4 || f[0] != succ.placement_field() || f[1] != (if succ.white { "w" } else { "b" }) || f[2] != succ.rights_field() {
+                            vio(acc, ctx, &format!("succ-history-fen|{}", t), format!("after {} played into the record fen() = {:?}, model successor {:?}", t, fen, succ.fen4(false)));
+                        }
+                    }
+                }
             }
         }
     }
@@ -699,6 +791,83 @@ fn common_assumptions() -> Vec<String> {
     ]
 }
 
+/// C16 through the interface: the route "two `position` commands in a row" (text import over an existing game, moves
+/// played into the record over an existing game). The score is not printed by `show`; what the interface lets one see
+/// of it is the `info score cp` of a search. For every ordered pair (X, Y) over a set of position commands (five
+/// starts in both phases, every path of length <= 2 over the first three moves in text order and every capture) the
+/// scores printed by `X ; Y ; go depth 2` must equal those of a fresh engine given `Y ; go depth 2` (no search precedes
+/// the measured one, so the table is empty in both sessions and only the game itself can differ).
+pub fn c16_uci_routes(acc: &mut Acc) -> SpaceReport {
+    use crate::props::c12::uci_seq;
+    let t0 = std::time::Instant::now();
+    let mut items: Vec<String> = vec![];
+    let starts: Vec<(String, Pos)> = vec![
+        ("startpos".to_string(), Pos::startpos()),
+        (format!("fen {}", ROOT_KIWI), parse_fen_strict(ROOT_KIWI).unwrap().pos.normalised()),
+        (format!("fen {}", ROOT_LADDER_OPEN), parse_fen_strict(ROOT_LADDER_OPEN).unwrap().pos.normalised()),
+        ("fen 8/8/4k3/8/8/3K4/4P3/8 w - - 0 1".to_string(), parse_fen_strict("8/8/4k3/8/8/3K4/4P3/8 w - - 0 1").unwrap().pos.normalised()),
+        ("fen 6k1/1P3ppp/8/8/8/8/1p3PPP/6K1 w - - 0 1".to_string(), parse_fen_strict("6k1/1P3ppp/8/8/8/8/1p3PPP/6K1 w - - 0 1").unwrap().pos.normalised()),
+    ];
+    for (setup, root) in &starts {
+        let pick = |p: &Pos| -> Vec<Mv> {
+            let mut l = p.legal();
+            l.sort_by_key(|m| m.uci());
+            let mut v: Vec<Mv> = l.iter().take(3).cloned().collect();
+            v.extend(l.iter().skip(3).filter(|m| m.captured != 0 || m.kind == MvKind::Promotion).take(3).cloned());
+            v
+        };
+        items.push(format!("position {}", setup));
+        for m1 in pick(root) {
+            let p1 = root.apply(&m1).normalised();
+            items.push(format!("position {} moves {}", setup, m1.uci()));
+            for m2 in pick(&p1) {
+                items.push(format!("position {} moves {} {}", setup, m1.uci(), m2.uci()));
+            }
+        }
+    }
+    let scores = |t: &[String]| -> Vec<i32> { crate::srch::info_scores(t) };
+    // fresh sessions, one per item
+    let fresh: Vec<Result<Vec<String>, String>> = {
+        let r = std::sync::Mutex::new(vec![None; items.len()]);
+        let _ = par_items(&(0..items.len()).collect::<Vec<_>>(), &|_, &i, _| {
+            let t = uci_seq(vec![items[i].clone(), "go depth 2".into(), "wait".into()]);
+            r.lock().unwrap()[i] = Some(t);
+        });
+        r.into_inner().unwrap().into_iter().map(|x| x.unwrap()).collect()
+    };
+    let n = items.len();
+    let idx: Vec<usize> = (0..n * n).collect();
+    let a = par_items(&idx, &|_, &k, acc| {
+        let (x, y) = (k / n, k % n);
+        let Ok(want) = &fresh[y] else {
+            acc.count("fresh session failed (judged by C14)");
+            return;
+        };
+        acc.evaluations += 1;
+        let text = format!("{} ; {} ; go depth 2", items[x], items[y]);
+        let replay = json::obj(vec![("kind", json::s("c16-uci")), ("first", json::s(items[x].clone())), ("second", json::s(items[y].clone()))]);
+        match uci_seq(vec![items[x].clone(), items[y].clone(), "go depth 2".into(), "wait".into()]) {
+            Err(e) => acc.violation(format!("c16-uci-died|{}", text), format!("session died: {} [{}]", e, text), replay),
+            Ok(got) => {
+                acc.transitions += 1;
+                let (a, b) = (scores(&got), scores(want));
+                if a != b {
+                    acc.violation(format!("c16-uci|{}", text), format!("scores {:?} after an earlier position command, {:?} on a fresh engine: the evaluation depends on the route [{}]", a, b, text), replay);
+                } else if got != *want {
+                    acc.count("sessions whose scores agree but whose other lines differ from the fresh engine (not judged here)");
+                }
+                if !a.is_empty() {
+                    acc.count("route pairs with a score to compare");
+                }
+            }
+        }
+    });
+    let states = (n * n) as u64;
+    acc.merge(a);
+    acc.states += states;
+    SpaceReport { name: format!("interface routes: ordered pairs of position commands over {} items (five starts, paths of length <= 2), scores of a depth-2 search against a fresh engine", n), states, exhaustive: true, note: format!("[{:.1}s]", t0.elapsed().as_secs_f64()) }
+}
+
 pub fn run(prop: &str, tier: &str, seed: i64) -> Outcome {
     let (spaces, visitor, rule): (Vec<Space>, Box<dyn Fn(&StateCtx, &mut Acc) + Sync>, &str) = match prop {
         "C01" => (core_spaces(tier, seed, false), Box::new(c01_visit), "every state of every listed space: engine checked list == model legal set (as multisets of UCI strings), unchecked list superset whose extras are model-pseudo-legal and self-check; on the FEN-loaded game and on the game reached by replaying the BFS path"),
@@ -718,6 +887,10 @@ pub fn run(prop: &str, tier: &str, seed: i64) -> Outcome {
             Some(r) => reports.push(r),
             None => acc.errors.push("VERIF_REAL_BIN not set or missing: the real-binary perft stage was not run".into()),
         }
+    }
+    if prop == "C16" {
+        let r = c16_uci_routes(&mut acc);
+        reports.push(r);
     }
     let mut out = Outcome::new(acc, reports, rule);
     out.traces_validated = out.acc.transitions;
@@ -823,6 +996,11 @@ pub fn replay_state(prop: &str, j: &J) -> Result<Acc, String> {
     if j.get("kind").and_then(|x| x.as_str()) == Some("c01-real-perft") {
         let mut acc = Acc::new();
         real_perft_stage(&mut acc);
+        return Ok(acc);
+    }
+    if j.get("kind").and_then(|x| x.as_str()) == Some("c16-uci") {
+        let mut acc = Acc::new();
+        let _ = c16_uci_routes(&mut acc);
         return Ok(acc);
     }
     let fen = j.get("fen").and_then(|x| x.as_str()).ok_or("replay lacks fen")?;
